@@ -135,8 +135,15 @@ def confirm_ub(c, inp):
        constant evaluators, which must reject an evaluation meeting UB: the same grammar (trivial constexpr functors) parses the same bytes in a constexpr context."""
     import emit
     src = os.path.join(c.wd, 'probe_%s_%s.cpp' % (c.name, vlib.hexs(inp)[:24]))
-    with open(src, 'w') as f: f.write(emit.constexpr_probe_cpp(c.g, inp, ws=c.ws, nl=c.nl))
+    vb = getattr(c, 'verbose', 0)
+    with open(src, 'w') as f: f.write(emit.constexpr_probe_cpp(c.g, inp, ws=c.ws, nl=c.nl, verbose=vb))
     rej = {}
+    if vb:
+        # control: the verbose probe must be a constant expression on a benign input of the same length, otherwise a rejection proves nothing
+        ctl = os.path.join(c.wd, 'probe_%s_control.cpp' % c.name)
+        with open(ctl, 'w') as f: f.write(emit.constexpr_probe_cpp(c.g, [ord('a')] * len(inp), ws=c.ws, nl=c.nl, verbose=vb))
+        rc, out, w, _ = vlib.run(['clang++-14', '-std=c++17', '-I' + os.path.join(vlib.REPO, 'include'), '-fsyntax-only', '-fconstexpr-steps=100000000', ctl], timeout=600, mem_gb=16)
+        if rc != 0: return {}
     for cc, extra in (('clang++-14', ['-fconstexpr-steps=100000000']), ('g++', ['-fconstexpr-ops-limit=1000000000', '-fconstexpr-loop-limit=10000000'])):
         rc, out, w, _ = vlib.run([cc, '-std=c++17', '-I' + os.path.join(vlib.REPO, 'include'), '-fsyntax-only'] + extra + [src], timeout=600, mem_gb=16)
         if rc != 0:
